@@ -25,6 +25,30 @@ error.  Numbers keep their token text; the `f32` value is computed only when pri
 namespace OxiVerif.C21
 open OxiVerif.Spec.Syntax (isDigit allDigits digitsVal)
 
+/-! ### small byte helpers (copies of `Model.Serializer` definitions, kept local so that this
+property does not depend on a module another builder is editing) -/
+
+/-- digits of `n`, most significant first (`u8`/`u32` `Display`) -/
+def natDigitsAux : Nat → Nat → List Nat → List Nat
+  | 0, n, acc => (48 + n % 10) :: acc
+  | fuel + 1, n, acc =>
+    if n < 10 then (48 + n) :: acc else natDigitsAux fuel (n / 10) ((48 + n % 10) :: acc)
+
+def showNat (n : Nat) : List Nat := natDigitsAux n n []
+
+/-- `{:02X}` -/
+def hexDigitUpper (n : Nat) : Nat := if n < 10 then 48 + n else 55 + n
+
+def hexBytesUpper : List Nat → List Nat
+  | [] => []
+  | b :: r => hexDigitUpper (b / 16 % 16) :: hexDigitUpper (b % 16) :: hexBytesUpper r
+
+def ltBytes : List Nat → List Nat → Bool
+  | [], [] => false
+  | [], _ :: _ => true
+  | _ :: _, [] => false
+  | a :: as, b :: bs => a < b || (a == b && ltBytes as bs)
+
 inductive Token where
   /-- `Token::Number(f32)`: the token text -/
   | number (tok : List Nat)
@@ -45,7 +69,7 @@ inductive Step where
   | tok (t : Token) (rest : List Nat)
   | done
   | err
-  deriving Repr
+  deriving Repr, DecidableEq
 
 def isWs (b : Nat) : Bool := b == 32 || b == 9 || b == 13 || b == 10 || b == 12
 
